@@ -796,6 +796,15 @@ def replay_dl(ctx, pc, results, quick):
                     if a != b:
                         ctx.divergence(f'{mode} {cfg} {desc}: tree observed='
                                        f'{a} predicted={b} exc={r["exc"]}')
+        # fixed regression inputs (re-established findings, stable signatures)
+        for hist in DL_REGRESSIONS:
+            ents = [conv_ent(e, top) for e in hist]
+            r = world.run_get(ents, 'dir', True)
+            n += 1
+            ctx.count(('get-regression', tuple(ent_str(e) for e in ents)))
+            if r['escapes'] or r['outside']:
+                note_dl(pc, world, found, cache, 'get',
+                        {'dest': 'dir', 'cont': True}, hist, r, top, prio=0)
         # fixed cases: attribute preservation through a planted link
         for hist in PRESERVE_CASES:
             ents = [conv_ent(e, top) for e in hist]
@@ -811,10 +820,11 @@ def replay_dl(ctx, pc, results, quick):
         for (kind, inp), ex in found.items():
             per_kind.setdefault(kind, []).append((inp, ex))
         for kind, lst in sorted(per_kind.items()):
-            lst.sort(key=lambda x: (len(x[0]), x[0]))
+            lst.sort(key=lambda x: (x[1][1], len(x[0]), x[0]))
             ctx.notes.append(f'{kind}: {len(lst)} distinct minimal inputs: ' +
                              ' | '.join('; '.join(x[0]) for x in lst[:12]))
-            for inp, ex in lst[:3]:
+            nprio = sum(1 for x in lst if x[1][1] == 0)
+            for inp, (ex, _prio) in lst[:max(3, nprio)]:
                 ctx.violation(
                     {'module': 'PathConfine', 'kind': kind, 'input': list(inp)},
                     f'download wrote outside the destination ({kind}): remote '
@@ -825,9 +835,22 @@ def replay_dl(ctx, pc, results, quick):
         world.close()
 
 
-PRESERVE_CASES = [
+def _m(e):
+    """entry with model-style (sequence) fields"""
+    return dict(name=e['name'].split('/'), type=e['type'],
+                t=e['t'].split('/') if e['t'] else [],
+                sub=[_m(x) for x in e['sub']])
+
+
+DL_REGRESSIONS = [[_m(e) for e in h] for h in [
+    [ent('../../x', 'file')],                                   # F4
+    [ent('a', 'link', '/T/x'), ent('a', 'file')],               # F4b
+    [ent('a', 'link', '../..'), ent('a', 'dir', sub=[ent('pwn', 'file')])],
+]]
+
+PRESERVE_CASES = [[_m(e) for e in h] for h in [
     [ent('a', 'link', '/T/sdir'), ent('a', 'dir', sub=[])],
-]
+]]
 
 
 def scp_script(hist):
@@ -835,7 +858,8 @@ def scp_script(hist):
             for x in hist]
 
 
-def note_dl(pc, world, found, cache, mode, cfg, hist, r, top, preserve=False):
+def note_dl(pc, world, found, cache, mode, cfg, hist, r, top, preserve=False,
+            prio=1):
     """classify + minimise an escaping download"""
     import posixpath
     dest = world.area.dest
@@ -858,6 +882,14 @@ def note_dl(pc, world, found, cache, mode, cfg, hist, r, top, preserve=False):
         if not pc.under(dest, textual):
             return base + '-hostile-name'
         return base + '-symlink-write-through'
+
+    def names_of(h):
+        out = []
+        for x in h:
+            if x.get('a', 'C') in 'CD' or 'type' in x:
+                out.append('/'.join(x['name']))
+            out += names_of(x.get('sub', []))
+        return out
     kind = kind_of(r)
     ck = (mode, json.dumps(cfg, sort_keys=True), json.dumps(hist), preserve)
     if ck in cache:
@@ -876,12 +908,16 @@ def note_dl(pc, world, found, cache, mode, cfg, hist, r, top, preserve=False):
     else:
         inp = tuple(ent_str(conv_ent(e, '/T')) for e in seq)
     inp = (f'dest={cfg["dest"]}' + (' preserve' if preserve else ''),) + inp
-    if (kind, inp) in found:
+    if kind.endswith('-hostile-name'):
+        nm = names_of(seq)
+        kind += (':separator' if any('/' in x for x in nm) else
+                 ':dotdot' if any(x in ('.', '..') for x in nm) else ':other')
+    if (kind, inp) in found and found[(kind, inp)][1] <= prio:
         return
     rr = run(seq)
     ex = [e.as_list() for e in rr['escapes'][:2]] or rr['outside']
     ex = json.loads(json.dumps(ex).replace(top, '/T'))
-    found[(kind, inp)] = ex
+    found[(kind, inp)] = (ex, prio)
 
 
 # --------------------------------------------------------------------------
